@@ -100,6 +100,11 @@ chk("C20", "one fresh interpreter per configuration observed through an audit ho
     "function x acyclic: import probe order, config after import, backend class instantiated, external entry point invoked, native operators posted/emitted, ValueError for unknown names / malformed booleans.",
     "module presence/absence simulated by a meta-path blocker and stubs", "DESIGN.md §3 C20")
 
+chk("C11", "client-boundary comparison of every bundled solve_<puzzle> with ground truth from exhaustive definition-level rule checkers (26 puzzles), under M-SOLVE",
+    "~190 (thorough ~3000) random instances per puzzle on boards up to 9-12 cells incl. non-square and 1xN: is_sat must equal 'a rule-obeying grid exists' and every "
+    "answer cell must be the value all rule-obeying grids agree on, or None; rule corners are handled by computing the truth under every reading.",
+    "my reading of the published rules (DESIGN.md Appendix A); candidate spaces enumerated completely for each instance", "DESIGN.md §3 C11 + Appendix A")
+
 MANIFEST = dict(
     version=1,
     setup_cmd="./setup.sh",
